@@ -17,7 +17,7 @@
 (*   inter(; members)         IntersectionType                                                 *)
 (*   lit("kind:value")        Literal; kinds int, str, bool (Constant builtins.True, as        *)
 (*                            output.py emits), pybool (raw bool, as the pyi parser builds),   *)
-(*                            enum                                                             *)
+(*                            enum (Constant E.X of class E), type (a class as the value)      *)
 (*   tvar(name)               TypeParameter                                                    *)
 EXTENDS Naturals, Sequences, FiniteSets, TLC
 
@@ -92,4 +92,31 @@ NormLit(t) ==
   ELSE IF t = Lit("pybool:False") THEN Lit("int:0")
   ELSE <<Tag(t), Name(t), [k \in DOMAIN Args(t) |-> NormLit(Args(t)[k])]>>
 LitVariant(a, b) == ~SpecEq(a, b) /\ SpecEq(NormLit(a), NormLit(b))
+
+(* ---- class-pointer states (C12) ------------------------------------------------------------ *)
+(* In a resolved AST a class is a ClassType node: a name plus a mutable pointer `cls` to the     *)
+(* class definition.  The pointer is NOT part of the node's identity (ClassType.__eq__ compares  *)
+(* class and name; visitors fill it in and clear it IN PLACE: FillInLocalPointers, LookupClasses,*)
+(* ClearClassPointers inside SerializeAst), so the equality law - and with it hashing - must     *)
+(* hold across pointer states: a node whose pointers are filled in equals, hashes like and       *)
+(* de-duplicates with the same node without pointers.                                            *)
+(* CtDialect(t): the term as it is built in the ClassType dialect (every class reference is a    *)
+(* ClassType, also the implicit ones: the base of a generic / tuple / callable / type[] and the  *)
+(* class of a bool / enum-member / class-valued literal).                                        *)
+RECURSIVE CtDialect(_)
+CtDialect(t) ==
+  <<IF Tag(t) \in {"named", "cls"} THEN "classtype" ELSE Tag(t), Name(t),
+    [k \in DOMAIN Args(t) |-> CtDialect(Args(t)[k])]>>
+(* literal payloads that hold a class reference *)
+PtrLits == {"bool:True", "bool:False", "enum:E.X", "enum:E.Y", "type:A"}
+(* does the ClassType-dialect node of t hold a class pointer somewhere? *)
+RECURSIVE HasPtr(_)
+HasPtr(t) ==
+  \/ Tag(t) \in {"named", "cls", "classtype", "gen", "htuple", "tuple", "callable", "callany", "type"}
+  \/ (Tag(t) = "lit" /\ Name(t) \in PtrLits)
+  \/ \E k \in DOMAIN Args(t) : HasPtr(Args(t)[k])
+(* the life of one node object: pointers filled in, cleared by Serialize, the copy DecodeAst     *)
+(* builds, pointers filled in on the copy; the pointer state the node must be in after each step *)
+LifeOps == <<"Fill", "Clear", "Decode", "Refill">>
+PtrAfter(op) == IF op \in {"Fill", "Refill"} THEN "r" ELSE "u"
 =============================================================================
